@@ -14,7 +14,11 @@ SPEC = {
             "sanitizer report; hex dumps: 640 layout flag combinations x 6 colour/diff modes x 20 start-address kinds "
             "(0, unaligned, width boundaries, 2^32, 2^63, up to 2^64-len) x 8 data kinds are rendered and decoded back by a "
             "Python dump parser; every 1-4-way iovec partition of 0..40-byte buffers and random <=8-way partitions above "
-            "are compared with the single-iovec rendering. distinct_nontrivial = distinct (operation, generator/address "
+            "are compared with the single-iovec rendering; every print_data/format_data entry point (pointer/size, string, "
+            "vector<iovec>, iovec*/count; string-returning and FILE*) x {no prev, prev in the same partition, prev cut into a "
+            "different number of pieces 1..4 vs 1..4} x colour {none, USE_COLOR, DISABLE_COLOR} is compared with the core "
+            "rendering of the contiguous buffers; % / %% literals include the exact midpoint of adjacent floats/doubles and "
+            "17-30-digit literals within 1e-17..1e-29 of it, judged by exact rational rounding. distinct_nontrivial = distinct (operation, generator/address "
             "kind, form/colour mode, mask/flag) classes observed, e.g. rt:meta-heavy:quoted:runs, dump:2^64-len:color+prev, "
             "grammar:int64-neg:be:off.",
     "level_text": "Exploration: seeded generation plus completely enumerated small scopes, each execution judged by an "
@@ -36,7 +40,20 @@ SPEC = {
         "rt:len257-600:quoted", "rt:len257-600:hex", "rt:len0:*",
         "total:truncated:*", "total:insert-token:*", "total:token-soup:*", "total:short:*", "total:long-repeat:*",
         "iov:exhaustive-4way:pieces4:diff", "iov:exhaustive-4way:pieces4:nodiff", "iov:random-8way:pieces5:diff",
-        "iov:len*:reaches-2^64", "overload:color+prev", "overload:plain",
+        "iov:len*:reaches-2^64", 
+        "overload:print_data(FILE*,vector):prev-more-pieces", "overload:print_data(FILE*,vector):prev-fewer-pieces",
+        "overload:print_data(FILE*,vector):prev-same-partition", "overload:print_data(FILE*,vector):prev-none",
+        "overload:format_data(vector):prev-more-pieces", "overload:format_data(vector):prev-fewer-pieces",
+        "overload:print_data(FILE*,iovec*,n):prev-more-pieces", "overload:print_data(FILE*,iovec*,n):prev-fewer-pieces",
+        "overload:format_data(iovec*,n):prev-more-pieces", "overload:format_data(iovec*,n):prev-same-partition",
+        "overload:print_data(FILE*,ptr,size):prev-contiguous", "overload:print_data(FILE*,string):prev-contiguous",
+        "overload:format_data(ptr,size):prev-contiguous", "overload:format_data(string):prev-none",
+        "overload:color-USE_COLOR:prev-more-pieces", "overload:color-none:prev-fewer-pieces",
+        "overload:color-DISABLE_COLOR:prev-same-partition", "overload:pieces:1v4", "overload:pieces:3v1", "overload:pieces:4vsame",
+        "grammar:float-midpoint:le:*", "grammar:float-midpoint:be:*", "grammar:double-midpoint:le:*", "grammar:double-midpoint:be:*",
+        "grammar:midpoint:float:exact", "grammar:midpoint:float:nearest-D", "grammar:midpoint:float:above-D",
+        "grammar:midpoint:float:below-D", "grammar:midpoint:float:plus-eps", "grammar:midpoint:float:minus-eps",
+        "grammar:midpoint:double:exact", "grammar:midpoint:double:above-D", "grammar:midpoint:double:minus-eps",
         "grammar:hex:le:off", "grammar:dq-char:*", "grammar:dq-escape:*", "grammar:sq-char:be:*", "grammar:sq-escape:le:*",
         "grammar:int8-*", "grammar:int16-neg:be:*", "grammar:int32-hex:*", "grammar:int64-neg:be:*", "grammar:int64-dec:le:*",
         "grammar:float:be:*", "grammar:float:le:*", "grammar:double:be:*", "grammar:double:le:*",
